@@ -33,6 +33,7 @@ TRACE_INV = ["M_Cycle", "M_Prec", "M_Best", "M_Cost", "M_BsfLen", "M_BsfMin", "M
              "D_Move", "D_Mask", "End"]
 JUMP = (-1,)
 MODEL_WORKERS = 5
+BATCH_OF_ONE = True      # also record runs with a batch of one row (single-instance inference)
 FLOAT_SCALE = 100000
 
 
@@ -426,7 +427,7 @@ def record_guarded(cfg, seed, viol):
 
 def trace_configs(tier):
     q = tier == "quick"
-    rows, steps = (4, 200) if q else (8, 1500)
+    rows, steps = (4, 200) if q else (8, 1000)
     L = []
     for exact in (True, False):
         for (kind, n, K) in [("kopt", 10, 2), ("kopt", 20, 2), ("kopt", 10, 3), ("kopt", 14, 3), ("kopt", 12, 4), ("kopt", 20, 4),
@@ -443,7 +444,8 @@ def trace_configs(tier):
                           jump_every=0 if "greedy" in drv else 29))
     # batch of one row (single-instance inference)
     for (kind, n, K, drv) in [("kopt", 10, 2, "sampler"), ("kopt", 10, 2, "dact:sampling"), ("kopt", 10, 3, "sampler"),
-                              ("kopt", 10, 4, "neuopt:sampling"), ("pdp", 11, 0, "sampler"), ("pdp", 11, 0, "n2s:sampling")]:
+                              ("kopt", 10, 4, "neuopt:sampling"), ("pdp", 11, 0, "sampler"),
+                              ("pdp", 11, 0, "n2s:sampling")] if BATCH_OF_ONE else []:
         L.append(dict(kind=kind, n=n, K=K, driver=drv, rows=1, steps=30, exact=True, init="random"))
     return L
 
@@ -505,7 +507,7 @@ def run(tier, seed):
     logging.disable(logging.WARNING)
     torch.set_num_threads(1)
     quick = tier == "quick"
-    viol, samples, notes = [], [], []
+    viol, samples = [], []
     # ---- (1) the specification, (2) replay ----
     fam = model_family(tier)
     states = trans = n_cmp = n_mask = n_sampled = n_mfail = 0
